@@ -3,17 +3,17 @@
    on the same schedule, is quiescent and predicts the same observation. *)
 From Relay Require Import Base.Prelude Model.RelaySys.
 
-Inductive kind := KSession | KDeny | KAllow | KWs | KCrossbar | KLeave.
+Inductive kind := KSession | KDeny | KAllow | KWs | KCrossbar | KLeave | KPre.
 
 Definition kind_eqb (a b : kind) : bool :=
   match a, b with
-  | KSession, KSession | KDeny, KDeny | KAllow, KAllow | KWs, KWs | KCrossbar, KCrossbar | KLeave, KLeave => true
+  | KSession, KSession | KDeny, KDeny | KAllow, KAllow | KWs, KWs | KCrossbar, KCrossbar | KLeave, KLeave | KPre, KPre => true
   | _, _ => false
   end.
 
 Record obs := mkobs {
   o_sess : N; o_deny : N; o_allow : N; o_denied : bool; o_allowed : bool;
-  o_codeleft : bool; o_wslive : bool; o_newsess : N; o_rejoin : bool }.
+  o_codeleft : bool; o_wslive : bool; o_newsess : N; o_rejoin : bool; o_prelive : bool }.
 
 Definition case := (list kind * list kind * obs)%type.
 
@@ -28,6 +28,7 @@ Definition thread_of (kj : nat) (k : kind) : thread :=
   | KDeny => TDeny the_bid 0
   | KAllow => TAllow the_bid 0
   | KLeave => TLeave kj 0
+  | KPre => TLeave kj 1          (* passive: the pre-joined connection just stays; a finished placeholder thread *)
   | _ => TWs pre_code 0 None
   end.
 
@@ -38,9 +39,10 @@ Definition has_kind (k : kind) (l : list kind) : bool := existsb (kind_eqb k) l.
 
 Definition init_of (ks : list kind) : sys :=
   let kj := length ks in
-  let s0 := init (map (thread_of kj) ks ++ (if has_kind KLeave ks then [TWs 101 3 (Some the_bid)] else []))
+  let pre := has_kind KLeave ks || has_kind KPre ks in
+  let s0 := init (map (thread_of kj) ks ++ (if pre then [TWs 101 3 (Some the_bid)] else []))
                  (if has_kind KWs ks then [(pre_code, the_bid)] else []) first_minted in
-  if has_kind KLeave ks
+  if pre
   then mksys (deny s0) (allow s0) (codes s0) (nextc s0) [(kj, the_bid)] [] [(kj, the_bid)] [] [] (threads s0)
   else s0.
 
@@ -67,16 +69,16 @@ Definition predict (ks : list kind) (s : sys) : obs :=
         denied
         (memN the_bid (allow s))
         (existsb (fun cb => N.leb first_minted (fst cb) && N.eqb (snd cb) the_bid) (codes s) && negb denied)
-        ((match index_of KWs ks 0 with Some k => live s k the_bid | None => false end)
-         || (has_kind KLeave ks && live s (length ks) the_bid))
+        (match index_of KWs ks 0 with Some k => live s k the_bid | None => false end)
         (if denied then 400 else 200)
-        true.
+        true
+        ((has_kind KLeave ks || has_kind KPre ks) && live s (length ks) the_bid).
 
 Definition obs_eqb (a b : obs) : bool :=
   N.eqb (o_sess a) (o_sess b) && N.eqb (o_deny a) (o_deny b) && N.eqb (o_allow a) (o_allow b) &&
   Bool.eqb (o_denied a) (o_denied b) && Bool.eqb (o_allowed a) (o_allowed b) &&
   Bool.eqb (o_codeleft a) (o_codeleft b) && Bool.eqb (o_wslive a) (o_wslive b) && N.eqb (o_newsess a) (o_newsess b) &&
-  Bool.eqb (o_rejoin a) (o_rejoin b).
+  Bool.eqb (o_rejoin a) (o_rejoin b) && Bool.eqb (o_prelive a) (o_prelive b).
 
 Definition case_ok (c : case) : bool :=
   let '(ks, sched, o) := c in
